@@ -1,4 +1,5 @@
 """C20 — the client library pairs answers with calls and sends what it was given (structural clauses)."""
+import re
 from ..ir import callee, short, walk, ctor_name, pat_variants, guards, AnchorMissing
 from ..prov import Bindings
 from .common import *
@@ -35,6 +36,30 @@ def _arm_facts(crate, f, b, arm):
                     ins.append((a0['name'], b.origins(nd['args'][1]), nd))
                 elif short(callee(nd)) == 'remove':
                     rem.append((a0['name'], b.origins(nd['args'][1]), nd))
+        if nd.get('k') == 'call' and callee(nd) in getattr(crate, 'fns', {}) and callee(nd) != f.path:
+            # a private helper that edits the callback tables (e.g. `forget_subscription(callbacks, id)`): its effects count,
+            # with the helper's parameters replaced by the arguments of this call
+            g = crate.fns[callee(nd)]
+            if getattr(g, 'hir', None) is not None and g.kind != 'Closure':
+                gb = Bindings(crate, g)
+                pn = [p_.get('name') if isinstance(p_, dict) and p_.get('k') == 'bind' else None for p_ in g.params]
+
+                def through(o_set, site=nd, pn=pn):
+                    out_ = set()
+                    for x in o_set:
+                        m_ = re.match(r'param\((\w+)\)(.*)$', x)
+                        if m_ and m_.group(1) in pn and pn.index(m_.group(1)) < len(site['args']):
+                            out_ |= {y + m_.group(2) for y in b.origins(site['args'][pn.index(m_.group(1))])}
+                        else:
+                            out_.add(x)
+                    return out_
+                for nd2, anc2 in crate.walk_fn(g):
+                    if nd2.get('k') == 'call' and short(callee(nd2)) in ('insert', 'remove') and nd2['args']:
+                        a0 = nd2['args'][0]
+                        while a0.get('k') == 'ref':
+                            a0 = a0['e']
+                        if a0.get('k') == 'field' and 'Callbacks' in str(a0.get('base_ty')):
+                            (ins if short(callee(nd2)) == 'insert' else rem).append((a0['name'], through(gb.origins(nd2['args'][1])), nd2))
         cn = ctor_name(nd)
         if cn and 'ClientMessage::' in cn and nd.get('k') == 'call':
             payload = b.deref_local(nd['args'][0]) if nd['args'] else None
